@@ -4,7 +4,8 @@ from ._links import with_links
 PROP = dict(
     level='proof',
     regen=['crctable', 'integconsts', 'readerconsts'],
-    theorems=['Fit.C16.C16_concat', 'Fit.C16.C16_lengths', 'Fit.C16.C16_agree', 'Fit.C16.C16_reader_error'],
+    theorems=['Fit.C16.C16_concat', 'Fit.C16.C16_lengths', 'Fit.C16.C16_layout', 'Fit.C16.C16_count_is_consumed', 'Fit.C16.C16_agree',
+              'Fit.C16.C16_reader_error', 'Fit.C16.C16_agree_api', 'Fit.C16.C16_api_results_are_fits'],
     families=[dict(name='raw', spec=True, prop=True)],
     # link theorem spec => raw decoder (additive: checklib/props/_links.py)
     extra=with_links(None, ['Fit.Links.Link_fitformat_raw'], crosscheck=[('raw', 'linkraw')]),
@@ -23,7 +24,7 @@ PROP = dict(
 
 TEXT = dict(
     technique='Lean 4 proof: model of raw.go as a client of io.ReadFull; one weakest-precondition pass over the program proves, for every byte string and every callback behaviour, that reported segments continue the stream and have the lengths an independent framing spec (FitFormat) prescribes given the preceding definitions; simulation against the full decoder model; differential correspondence real RawDecoder vs model vs FitFormat vs real Decoder',
-    text='Theorems: C16_agree (whenever the full decoder model, checksum ignored, accepts a stream — all Decodes succeed and the loop ends at a clean end of stream — the raw decoder model accepts it, consumes all of it, reports the same number of sequences and the same ordered series of definitions (header byte, architecture, global number, field and developer field definitions) and data messages (header byte); by simulation: both consume the same bytes per record whatever the field sizes), C16_concat (for every stream and callback: concatenated segments = the first bytes of the stream, ≤ n ≤ length; = exactly the n consumed bytes on success), C16_lengths (every segment has the FitFormat-prescribed length given the preceding definitions; data records always have a live definition; definitions do not survive a sequence). Tie: family raw (ops raw: real RawDecoder vs model incl. fragmenting/failing readers and failing callbacks, --spec: FitFormat segmentation on every well-framed stream; ops rawdec: real RawDecoder vs real Decoder with mesg-def and mesg listeners, --prop: same number of sequences, same ordered series of definitions and data messages whenever the full decoder accepts).',
+    text='Theorems: C16_agree (whenever the full decoder model, checksum ignored, accepts a stream — all Decodes succeed and the loop ends at a clean end of stream — the raw decoder model accepts it, consumes all of it, reports the same number of sequences and the same ordered series of definitions (header byte, architecture, global number, field and developer field definitions) and data messages (header byte); by simulation: both consume the same bytes per record whatever the field sizes), C16_concat (for every stream and callback: concatenated segments = the first bytes of the stream, ≤ n ≤ length; = exactly the n consumed bytes on success), C16_lengths (every segment has the FitFormat-prescribed length given the preceding definitions; data records always have a live definition; definitions do not survive a sequence), C16_layout (every segment sits where the protocol prescribes: a header only between sequences, records only while they fall short of the data size of the header — read by the independent FitFormat.parseHeader —, the CRC segment exactly when they have reached it; a run without error ends between sequences; the fuel of the inner loop never ends it), C16_count_is_consumed (over every reader schedule without failures the byte count the `raw` operation prints, runFullN … 0, is the consumedExact of the theorems, same outcome), C16_agree_api (FitProps/C16Api.lean: through Link_decprog_eq_api the Decode() results of the API model (C) are a function of the accepted run of (D); they are FITs only, as many as the raw decoder reports sequences). Tie: family raw (ops raw: real RawDecoder vs model incl. fragmenting/failing readers and failing callbacks, --spec: FitFormat segmentation on every well-framed stream; ops rawdec: real RawDecoder vs real Decoder with mesg-def and mesg listeners, --prop: concatenation, lengths, positions (layoutOK / layoutClosed) and — whenever the full decoder accepts — same number of sequences, same ordered series of definitions and data messages; ops rawdech: the same with a USED full decoder — PeekFileId [+ Discard] on another stream, then Reset — whose answer must be that of a new decoder, half of them on streams that lost their first definition).',
     note='Proved about the model; tied by differential testing.',
 )
 
